@@ -317,7 +317,7 @@ pub fn run(ctx: &Ctx) -> Outcome {
          Non-trivial: second 60, |offset| > 1 day, instant within 70 years of a range end, projected instants, range-edge searches.",
     );
     out.assumptions = vec!["from_timespec_and_local accepts instants outside the UTC range as long as instant + offset is representable (documented behaviour); DateTime::new and the search require the instant itself inside the range".into()];
-    let cases = ctx.tier.pick(25_000u32, 1_000_000u32);
+    let cases = ctx.tier.pick(75_000u32, 1_000_000u32);
     let s_new = (prop_oneof![4 => gens::arb_valid_fields(), 1 => gens::arb_fields_perturbed()], gens::arb_ltt_wide()).prop_map(|(f, ltt)| NewCase { f, ltt });
     let rs = par_shards(16, |shard, st| pt_shard(ctx, "new", shard, cases, &s_new, st, check_new));
     out.absorb_all(rs);
@@ -346,7 +346,7 @@ pub fn run(ctx: &Ctx) -> Outcome {
     }
     let zc = ZoneCfg { max_trans: 8, leaps: true, wide_times: false };
     let s_proj = (gens::arb_zone(zc), gens::arb_zone(zc), proptest::collection::vec((prop_oneof![3 => -3_000_000_000i64..5_000_000_000, 1 => gens::arb_unix_time()], gens::arb_valid_ns()), 1..8)).prop_map(|(zone_a, zone_b, us)| ProjCase { zone_a, zone_b, us });
-    let cases_p = ctx.tier.pick(4_000u32, 120_000u32);
+    let cases_p = ctx.tier.pick(12_000u32, 120_000u32);
     let rs = par_shards(16, |shard, st| pt_shard(ctx, "proj", 200 + shard, cases_p, &s_proj, st, check_proj));
     out.absorb_all(rs);
     if out.failure.is_some() {
